@@ -203,6 +203,13 @@ def cstr(n: ast.AST) -> str:
             # dict((k, v) for ...) is the dict comprehension {k: v for ...}
             g = n.args[0]
             return cstr(ast.DictComp(key=g.elt.elts[0], value=g.elt.elts[1], generators=g.generators))
+        if f == 'dict.fromkeys' and len(n.args) in (1, 2) and not n.keywords and \
+                (len(n.args) == 1 or isinstance(n.args[1], ast.Constant)):
+            # dict.fromkeys(S, c) is {k: c for k in S} (one shared value: only for an immutable constant)
+            k = ast.Name(id='_fk', ctx=ast.Load())
+            return cstr(ast.DictComp(key=k, value=n.args[1] if len(n.args) == 2 else ast.Constant(value=None),
+                                     generators=[ast.comprehension(target=ast.Name(id='_fk', ctx=ast.Store()), iter=n.args[0],
+                                                                   ifs=[], is_async=0)]))
         cargs = list(n.args)
         if f in ('sum', 'min', 'max', 'list', 'set', 'sorted', 'any', 'all', 'tuple', 'frozenset', 'len') and cargs:
             g = cargs[0]
@@ -263,7 +270,18 @@ def cstr(n: ast.AST) -> str:
         k = {'GeneratorExp': 'gen', 'ListComp': 'list', 'SetComp': 'set'}[type(n).__name__]
         return '%s(%s for %s)' % (k, term(n.elt), gens)
     if isinstance(n, ast.DictComp):
-        gens = ';'.join('%s in %s' % (term(g.target), term(g.iter)) for g in n.generators)
+        def _src(it):
+            # iterating a dict built as {k: _ for k in D.keys()} visits the keys of D in the same order, once each
+            if isinstance(it, ast.Call):
+                return it
+            if isinstance(it, ast.DictComp) and len(it.generators) == 1 and not it.generators[0].ifs \
+                    and isinstance(it.key, ast.Name) and isinstance(it.generators[0].target, ast.Name) \
+                    and it.key.id == it.generators[0].target.id:
+                inner = it.generators[0].iter
+                if isinstance(inner, ast.Call) and isinstance(inner.func, ast.Attribute) and inner.func.attr == 'keys' and not inner.args:
+                    return inner
+            return it
+        gens = ';'.join('%s in %s' % (term(g.target), term(_src(g.iter))) for g in n.generators)
         return 'dict(%s:%s for %s)' % (term(n.key), term(n.value), gens)
     if isinstance(n, ast.BinOp):
         return '(%s %s %s)' % (term(n.left), type(n.op).__name__, term(n.right))
